@@ -10,3 +10,4 @@ import PraatModel.Proto
 import PraatModel.Run
 import PraatModel.Lemmas.Tier
 import PraatModel.Props.C06
+import PraatModel.Props.C07
